@@ -90,7 +90,7 @@ pub enum Ev {
     /// A scheduling request and its result. `sid` is a fresh action
     /// identifier, `deadline` the absolute deadline computed by the harness
     /// from the time it read just before the call (`now`).
-    SchedCall { actor: Actor, sid: u32, target: u16, kind: u8, mode: SchedMode, rel: Option<u64>, abs: Option<T>, via_action: bool, seq_before: u64 },
+    SchedCall { actor: Actor, sid: u32, target: u16, kind: u8, mode: SchedMode, rel: Option<u64>, abs: Option<T>, via_action: bool, salt: u32, seq_before: u64 },
     SchedRet { actor: Actor, sid: u32, res: Res },
     CancelCall { actor: Actor, sid: u32, how: u8 },
     CancelRet { actor: Actor, sid: u32 },
@@ -115,6 +115,7 @@ pub enum TraceEv {
     Pushed(usize),
     Popped(usize),
     TimeWritten(i64, u32),
+    TimeoutFired,
 }
 
 #[derive(Clone, Copy, Debug, PartialEq, Eq, Serialize)]
